@@ -265,6 +265,9 @@ def schedules(rng, n, flushes, count):
          ",".join((["i,t,w,s,c1"] * n)) + ",E,D" if not flushes else schedule_whole(n, flushes, "C")]
     for _ in range(max(0, count - len(s))):
         s.append(schedule_random(rng, n, flushes))
+    # `g`: heap activity (forced collection, allocations, collection) between the moment an error is latched and parser/error, in the
+    # byte-per-byte run and in every second random schedule (deterministic: no draw from the generator)
+    s = [("g," + q) if (i == 1 or (i >= 4 and i % 2 == 1)) else q for i, q in enumerate(s)]
     s = [",".join(x for x in q.split(",") if x) for q in s]
     return s[:max(count, 4)]
 
@@ -381,6 +384,8 @@ def schedule_solo(rng, n):
     """API-sequence fuzz: raw flushes and error taking without draining first (queued values are dropped, so the result depends on the
     schedule: compared with the model and checked for crashes only, never across schedules)"""
     out = ["R"] if rng.chance(1, 2) else []
+    if n % 2:
+        out.insert(0, "g")
     pos = 0
     while pos < n:
         k = min(n - pos, rng.choice([1, 2, 3, 5, 8, 13, 40]))
